@@ -353,6 +353,14 @@ def run(ck, m):
     ck.need(fin is not None, "Renderable.draw: clean-up not found")
     seq = [norm(s) for s in walk_local(ast.Module(body=fin.finalbody, type_ignores=[])) if isinstance(s, ast.Expr) and norm(s).startswith("output.")]
     ck.ob("R4", fin, seq[:3] == ["output.write('\\n')", "output.write(SHOW_CURSOR)", "output.flush()"], f"clean-up order must be newline, SHOW_CURSOR, flush; found {seq[:3]}", stmt="Renderable.draw: newline, show, flush")
+    # the final newline and the flush happen on every draw (only the SHOW_CURSOR depends on whether the cursor was hidden): a pipe or a
+    # block-buffered stream otherwise still holds the newline when draw() returns
+    from tiv.astutil import conds as _conds2
+    base_c = _conds2(fin)
+    for want_ in ("output.write('\\n')", "output.flush()"):
+        cs_ = [c for s_ in fin.finalbody for c in walk_local(s_) if isinstance(c, ast.Call) and norm(c) == want_]
+        extra_ = sorted(_conds2(cs_[0]) - base_c) if cs_ else ["<missing>"]
+        ck.ob("R4", enclosing_stmt(cs_[0]) if cs_ else fin, not extra_, f"`{want_}` in draw()'s clean-up must be unconditional; it runs only under {extra_}", stmt=f"Renderable.draw: {want_} unconditional in the clean-up")
 
     # ---- R5 ----------------------------------------------------------------------------
     cf = m.get(KT, "KittyImage._clear_frame")
@@ -372,6 +380,16 @@ def run(ck, m):
               f"_clear_frame clears explicitly for version {a[0][0]} {a[0][1]} while _display_animated uses blend=False for version {b[0][0]} {b[0][1]}: the predicates must be complementary, "
               "otherwise some kitty version gets neither and frames pile up on the same cells", stmt="kitty: clear-frame / blend=False predicates complementary")
 
+    # ... and the explicit clear deletes exactly the z-index every animation frame is drawn on: _display_animated forces that z-index
+    # unconditionally (a caller-supplied one would never be cleared)
+    clr = next((c for c in body_walk(cf) if isinstance(c, ast.Call) and norm(c.func).endswith(".clear") and kw(c, "z_index") is not None), None)
+    zst = [st for t, st in stores_in(ast.Module(body=kd.body, type_ignores=[])) if isinstance(t, ast.Subscript) and norm(t) == "kwargs['z_index']"]
+    ck.expect(clr is not None, "kitty: _clear_frame's clear(z_index=...) not recognised")
+    if clr is not None:
+        from tiv.astutil import conds as _conds
+        okz = len(zst) == 1 and not _conds(zst[0]) and norm(zst[0].value) == norm(kw(clr, "z_index"))
+        ck.ob("R5", zst[0] if zst else kd, okz, f"animation frames must always be drawn on the z-index `_clear_frame` deletes ({norm(kw(clr, 'z_index'))}): `kwargs['z_index'] = <that>` unconditionally; "
+              f"found {[short(s_, 50) for s_ in zst] or 'no plain store'} - with another z-index the previous frames are never removed on kitty <= 0.25.0", stmt="kitty: animation z-index == cleared z-index")
     # every frame is drawn over the same cells: the iterator's cache must hold unpadded frames (shared with C08/C09)
     from rules.c09 import rule_padding_after_cache
     rule_padding_after_cache(ck, m, "R2")
